@@ -5,12 +5,12 @@ RAW_SRC = ["harness/drv_raw.cpp"]
 
 def _c02_stages(tier):
     san = {"name": "raw-enum-san", "driver": "drv_raw", "config": "san", "sources": RAW_SRC,
-           "args": ["--deadline", "150" if tier == "quick" else "1500"], "kinds": ["raw"]}
+           "args": ["--deadline", "150" if tier == "quick" else "1200"], "kinds": ["raw"]}
     if tier != "thorough":
         return [san]
-    # uninstrumented build under valgrind memcheck (uninitialised reads): a ~10x smaller enumeration
+    # uninstrumented build under valgrind memcheck (uninitialised reads): the quick-tier enumeration, 10-40x smaller than the thorough one
     vg = {"name": "raw-enum-valgrind", "driver": "drv_raw", "config": "rel", "sources": RAW_SRC,
-          "args": ["--vg", "1", "--deadline", "900"], "kinds": ["raw-vg"]}
+          "args": ["--vg", "1", "--deadline", "400"], "kinds": ["raw-vg"]}
     return [san, vg]
 
 
@@ -32,7 +32,7 @@ simple("C02", "exploration",
         "reports located inside libstdc++'s std::regex implementation (deep recursion on long inputs) are not ada's code: regex "
         "inputs are kept short and such reports are counted separately, never as violations"],
        _c02_stages,
-       deadline={"quick": 400, "thorough": 3300})
+       deadline={"quick": 400, "thorough": 2400})
 
 META["C02"] = {
     "engine": "raw-enum (ASan/UBSan/LSan/_GLIBCXX_ASSERTIONS build; valgrind memcheck stage in the thorough tier)",
